@@ -435,8 +435,26 @@ class _SecondUser:
                                                  then_disco=None, es=0, ei=0, n=0, drop_salt=False))
 
 
+class _UnauthReports:
+    """every operation x every kind of UNAUTHENTICATED Report (usmStats, arbitrary or no bindings, error-status 0 / 2) in place of
+    the first or second answer: it may only surface as an error"""
+
+    def __iter__(self):
+        for ui in range(len(USERS)):
+            for op in OPS:
+                for at in ((0, 1) if op in WALKS else (0,)):
+                    for payload in ("report_usm", "report_any", "report_empty"):
+                        for flags in (0, 4):
+                            for es in (0, 2):
+                                for n in (0, 1):
+                                    yield dict(kind="forgery", user=ui, op=op, at=at, fill=5,
+                                               spec=dict(flags=flags, digest="none", user="same", engine="same", payload=payload,
+                                                         then_disco=None, es=es, ei=1, n=n, drop_salt=True))
+
+
 def units(tier, seed):
-    us = [Unit("second-user", enumeration_unit, cases=_SecondUser(["get", "walk"] if tier == "quick" else OPS),
+    us = [Unit("unauth-reports", enumeration_unit, cases=_UnauthReports(), label="unauth-reports", exhaustive=False),
+          Unit("second-user", enumeration_unit, cases=_SecondUser(["get", "walk"] if tier == "quick" else OPS),
                label="second-user", exhaustive=False)]
     for b in bases(tier):
         for lo in range(0, 2400, 800):
